@@ -107,7 +107,7 @@ func (el *eventloop) closeConns() {
 
 type connWithCallback struct {
 	c  *conn
-	cb func()
+	cb func(error) // receives the outcome of the registration
 }
 
 func (el *eventloop) enroll(c net.Conn, addr net.Addr, ctx any) (resCh chan RegisteredResult, err error) {
@@ -186,16 +186,20 @@ func (el *eventloop) enroll(c net.Conn, addr net.Addr, ctx any) (resCh chan Regi
 		gc.SetContext(ctx)
 		gc.SetSafeContext(ctx)
 
-		connOpened := make(chan struct{})
-		ccb := &connWithCallback{c: gc, cb: func() {
-			close(connOpened)
+		connOpened := make(chan error, 1)
+		ccb := &connWithCallback{c: gc, cb: func(err error) {
+			connOpened <- err
 		}}
 		if err := el.poller.Trigger(queue.LowPriority, el.register, ccb); err != nil {
 			gc.Close() //nolint:errcheck
 			resCh <- RegisteredResult{Err: err}
 			return
 		}
-		<-connOpened
+		if err := <-connOpened; err != nil {
+			// The registration failed, there is no usable connection to hand out.
+			resCh <- RegisteredResult{Err: err}
+			return
+		}
 
 		resCh <- RegisteredResult{Conn: gc}
 	})
@@ -206,8 +210,9 @@ func (el *eventloop) register(a any) error {
 	c, ok := a.(*conn)
 	if !ok {
 		ccb := a.(*connWithCallback)
-		c = ccb.c
-		defer ccb.cb()
+		err := el.register0(ccb.c)
+		ccb.cb(err)
+		return err
 	}
 	return el.register0(c)
 }
